@@ -212,10 +212,20 @@ def s6(ctx, rep):
     P = ctx.P
     h = P.method("HyperbandBracketManager", "on_task_report")
     d = None
+    dv = None
     for st in walk_shallow(h.node):
         if isinstance(st, ast.Assign) and isinstance(st.value, ast.Dict):
             d = dict_items(st.value)
             dv = U(st.targets[0])
+    # the answer is a dictionary made for this call: what one report writes into it (the rung system's answer is merged in) must not
+    # be what the next report - of any trial - starts from
+    rets = [r.value for r in returns_of(h) if r.value is not None]
+    fresh = bool(rets) and all(isinstance(r, ast.Name) and r.id == dv for r in rets)
+    rep.put(fresh, "S6", "aliasing", "HyperbandBracketManager.on_task_report: the answer is a dictionary created in this call", h, rets[0] if rets else None, "",
+            "the returned answer is not a dictionary literal built in on_task_report (an attribute or another shared object is updated and returned): a report at "
+            "max_t gets whatever the previous report left in it - 'continue' at the maximum resource")
+    if not fresh:
+        return
     ok = d is not None and "task_continues" in d and isinstance(d["task_continues"], ast.Constant) and d["task_continues"].value is False \
         and isinstance(d.get("milestone_reached"), ast.Constant) and d["milestone_reached"].value is True
     rep.put(ok, "S6", "agreement", "HyperbandBracketManager.on_task_report: default answer is 'stop, milestone reached'", h, None, "")
